@@ -850,6 +850,12 @@ func (g *generator) step1() (res Value, resultType resultType, ex *Exception) {
 				// the generator: handleThrow has already unwound the generator's try frames.
 				return
 			}
+			if !vm.halted() {
+				// An exception raised by a Go panic (a native function, a runtime TypeError) was caught by a
+				// handler inside the generator: runTryInner returned without the code having halted. Keep running,
+				// as the branch above does; falling through would pop a random value as the "result".
+				continue
+			}
 
 			if vm.prg != nil && vm.pc == -2 { // normal exit from finally
 				if g.enterNextFinallyFrame() {
